@@ -204,9 +204,12 @@ func (agent *Agent) Stop(ctx context.Context) {
 
 func (agent *Agent) healthCheck() {
 	timer := agent.clock.NewTicker(agent.healthCheckInterval)
+	defer timer.Stop()
+
 	for {
 		select {
 		case <-agent.ctx.Done():
+			return
 		case <-timer.Chan():
 			report := agent.calculateHealth()
 			if report != nil {
